@@ -10,7 +10,7 @@ INPUTS = [("e", 2), ("f", 2), ("u", 1)]
 VARS = ["x", "y", "z", "w", "v"]
 
 
-def gen_program(seed, with_agg=False):
+def gen_program(seed, with_agg=False, front=False):
     rnd = random.Random(seed)
     nder = rnd.choice([2, 3, 3])
     derived = [(f"r{i}", rnd.choice([1, 2, 2, 3])) for i in range(nder)]
@@ -22,11 +22,11 @@ def gen_program(seed, with_agg=False):
     for i, (name, ar) in enumerate(derived):
         for k in range(rnd.choice([2, 2, 3])):
             # the first rule of every relation only reads input relations (or earlier relations): a base case
-            lines.append(gen_rule(rnd, name, ar, i, derived, arity, with_agg, base=(k == 0)))
+            lines.append(gen_rule(rnd, name, ar, i, derived, arity, with_agg, base=(k == 0), front=front))
     return "\n".join(lines) + "\n"
 
 
-def gen_rule(rnd, head, har, idx, derived, arity, with_agg, base=False):
+def gen_rule(rnd, head, har, idx, derived, arity, with_agg, base=False, front=False):
     pos_rels = [n for n, _ in INPUTS] + [n for n, _ in derived[: (idx if base else idx + 1)]]
     if not base and rnd.random() < 0.6:
         pos_rels += [head] * 2          # favour recursion
@@ -43,13 +43,16 @@ def gen_rule(rnd, head, har, idx, derived, arity, with_agg, base=False):
                 return v
         return None
 
-    def clause_args(rel, allow_expr=True):
+    def clause_args(rel, allow_expr=True, avoid=()):
         args = []
         here = []
+        usable = [b for b in bound if b not in avoid]
         for _ in range(arity[rel]):
             r = rnd.random()
-            if r < 0.45 and (bound or here):
-                args.append(rnd.choice(bound + here))              # join / repeated variable
+            if front and not base:
+                r = r * 0.85                                       # plain variables only: simple joins are frequent
+            if r < 0.45 and (usable or here):
+                args.append(rnd.choice(usable + here))             # join / repeated variable
             elif r < 0.75:
                 v = newvar()
                 if v is None or v in here:
@@ -69,7 +72,25 @@ def gen_rule(rnd, head, har, idx, derived, arity, with_agg, base=False):
         return "(" + ",".join(args) + ")"
 
     # optionally start with a let / for (exercises the not-reorderable simple-join path)
-    if rnd.random() < 0.15:
+    if front and not base:
+        # `front` family: (nearly) every rule starts with a binder - let / for / agg - whose variable the clauses may use
+        r = rnd.random()
+        v = newvar()
+        if r < 0.3:
+            items.append(f"let {v} = {rnd.randrange(3)}")
+        elif r < 0.55 or not with_agg:
+            items.append(f"for {v} in 0..{rnd.choice([2, 3])}")
+        else:
+            rel = rnd.choice(low_rels)
+            args = [rnd.choice(["_", "_", str(rnd.randrange(3))]) for _ in range(arity[rel])]
+            kind = rnd.choice(["max", "max", "min", "sum"])   # (count() yields usize: not usable as a clause argument)
+            if True:
+                a = newvar_excluding(fresh, [v])
+                args[rnd.randrange(len(args))] = a
+                items.append(f"agg {v} = {kind}({a}) in {rel}({','.join(args)})")
+        bound.append(v)
+        nclauses = rnd.choice([2, 2, 3])
+    elif rnd.random() < 0.15:
         v = newvar()
         items.append(f"let {v} = {rnd.randrange(3)}")
         bound.append(v)
@@ -77,13 +98,18 @@ def gen_rule(rnd, head, har, idx, derived, arity, with_agg, base=False):
         v = newvar()
         items.append(f"for {v} in 0..{rnd.choice([2, 3])}")
         bound.append(v)
+    pre = list(bound)
     for c in range(nclauses):
         rel = rnd.choice(pos_rels)
-        s = rel + clause_args(rel)
+        # `front` family: the first clause does not mention the leading binder's variable (so that the first two clauses
+        # can form a simple join), the following ones may
+        s = rel + (clause_args(rel, avoid=pre) if front and not base and c == 0 else clause_args(rel))
         if bound and rnd.random() < 0.2:
             s += " " + cond(rnd, bound)                            # condition attached to the clause
         items.append(s)
         r = rnd.random()
+        if front and not base and c == 0:
+            continue                                               # keep the first two clauses adjacent
         if bound and r < 0.2:
             items.append(cond(rnd, bound))
         elif bound and r < 0.3:
